@@ -16,7 +16,7 @@ def panic_api(ci):
         return "Option::" + n
     if p.startswith("core::result::Result::") and n in ("unwrap", "expect", "unwrap_err", "expect_err", "unwrap_unchecked"):
         return "Result::" + n
-    if p.startswith("subtle::CtOption::") and n in ("unwrap", "expect"):
+    if (p.startswith("subtle::CtOption::") or p.startswith("ctutils::ct_option::CtOption::")) and n in ("unwrap", "expect"):
         return "CtOption::" + n
     if tr.endswith("::Index") and n == "index":
         return "Index::index"
